@@ -306,7 +306,306 @@ def check_c19(tier, seed):
         "no empty-string delimiter (str.rsplit rejects it)"]}
 
 
-CHECKS = {"C20": check_c20, "C19": check_c19}
+# ---------------------------------------------------------------------------
+# C17 / C18 -- the web services
+
+WEB_CONST = {"FoldMap": "<- Fold", "DefaultDelim": "<- MCDefaultDelim", "SlashCh": 47, "InvalidIRI": "<- MCInvalid",
+             "Supported": "<- MCSupported", "SynonymOf": "<- MCSyn", "DefaultType": "<- MCDefaultType"}
+SUPPORTED = ["application/sparql-results+json", "application/sparql-results+xml", "application/sparql-results+csv"]
+SYNONYMS = ["application/json", "text/json", "application/xml", "text/xml", "text/csv"]
+UNSUPPORTED = ["text/html", "*/*", "application/x-binary-rdf-results-table", "text/tab-separated-values"]
+MC_TYPES = {1: SUPPORTED[0], 2: SUPPORTED[1], 3: SUPPORTED[2], 4: "application/json", 5: "application/xml", 6: "text/csv",
+            7: "text/html", 8: "*/*"}
+
+
+class WebCalls(Calls):
+    def __init__(self, focus):
+        super().__init__(focus)
+        self.convs = []
+        self.conv_objs = []
+
+    def conv(self, recs, delim):
+        import impl
+        import curies
+        c = curies.Converter([impl.mk_record(r) for r in recs], delimiter=delim)
+        self.convs.append(impl.proj_conv(self.I, c))
+        self.conv_objs.append(c)
+        return len(self.convs)
+
+    def batch(self, group=150):
+        b, g = super().batch(group)
+        from rdflib.term import _is_valid_uri
+        chars = set()
+        for s in self.I.strs:
+            chars.update(s)
+        b["invalid"] = sorted(ord(ch) for ch in chars if not _is_valid_uri(ch))
+        b["convs"] = self.convs
+        return b, g
+
+
+_apps = {}
+
+
+def _clients(calls, ci):
+    key = (id(calls), ci)
+    if key not in _apps:
+        import warnings
+        warnings.filterwarnings("ignore")
+        from curies.resolver_service import get_fastapi_app, get_flask_app
+        from starlette.testclient import TestClient
+        c = calls.conv_objs[ci - 1]
+        _apps[key] = (get_flask_app(c).test_client(), TestClient(get_fastapi_app(c)))
+    return _apps[key]
+
+
+def resolve_call(calls, ci, p, ident):
+    c = calls.conv_objs[ci - 1]
+    path = "/" + p + c.delimiter + ident
+    fl, fa = _clients(calls, ci)
+    r1 = fl.get(path)
+    r2 = fa.get(path, follow_redirects=False)
+    I = calls.I
+    a1 = [r1.status_code, [I(r1.headers["Location"])] if r1.headers.get("Location") is not None else []]
+    a2 = [r2.status_code, [I(r2.headers["location"])] if r2.headers.get("location") is not None else []]
+    calls.add({"f": "resolve", "conv": ci, "p": I(p), "id": I(ident), "flask": a1, "fastapi": a2},
+              {"f": "resolve", "delimiter": c.delimiter, "records": [[r.prefix, r.uri_prefix, r.prefix_synonyms] for r in c.records],
+               "path": path, "flask": [r1.status_code, r1.headers.get("Location")], "fastapi": [r2.status_code, r2.headers.get("location")]})
+
+
+SAFE = "abcXYZ019._-~"
+
+
+def check_c17(tier, seed):
+    t0 = time.time()
+    quick = tier == "quick"
+    rng = random.Random(seed + 17)
+    consts = dict(WEB_CONST, MaxPath=7 if quick else 9, MaxParts=1, MaxURI=1)
+    model, states, cex = run_model("mc/MC_Web.tla", "Spec", consts, ["Inv_C17"], 900 if quick else 3000, want=("st",), dump=quick)
+    if not quick:
+        _, states, _ = run_model("mc/MC_Web.tla", "Spec", dict(consts, MaxPath=7), ["Inv_C17"], 900, want=("st",))
+    calls = WebCalls({"C17"})
+    pmaps = [{1: "d", 2: "D", 47: "/", 58: ":"}, {1: "go", 2: "Go", 47: "/", 58: ":"}]
+    convs = {}
+    sts = [s["st"] for s in states if s.get("st", {}).get("kind") == "resolve"]
+    if cex:
+        sts += [s["st"] for s in cex if s.get("st", {}).get("kind") == "resolve"]
+    n = 0
+    for st in sts:
+        delim = "".join(chr(c) for c in st["c"]["delim"])
+        rest = st["path"][1:]
+        dl = tuple(st["c"]["delim"])
+        # split at the first delimiter; keep requests inside the quantifier of C17
+        pos = next((i for i in range(len(rest)) if rest[i:i + len(dl)] == dl), None)
+        if pos is None:
+            continue
+        p, ident = rest[:pos], rest[pos + len(dl):]
+        if not p or 47 in p or not ident or ident[0] == 47 or ident[-1] == 47 or any(ident[i] == 47 and ident[i + 1] == 47 for i in range(len(ident) - 1)):
+            continue
+        for k, pm in enumerate(pmaps):
+            if quick and k == 1 and n % 3:
+                continue
+            key = (delim, k)
+            if key not in convs:
+                recs = []
+                for r in st["c"]["recs"]:
+                    recs.append({"p": _dconc(r["p"], pm), "u": "http://e.org/" + _dconc(r["u"], pm).replace(" ", "%20"),
+                                 "ps": sorted(_dconc(x, pm) for x in r["ps"]),
+                                 "us": sorted("http://alt.e.org/" + _dconc(x, pm).replace(" ", "_") for x in r["us"]), "pat": None})
+                convs[key] = calls.conv(recs, delim)
+            resolve_call(calls, convs[key], _dconc(p, pm), _dconc(ident, pm))
+        n += 1
+    n_model = len(calls.calls)
+    for _ in range(60 if quick else 600):
+        delim = rng.choice([":", ":", "/"])
+        names = rng.sample(["doi", "DOI", "go", "GO", "chebi", "x.y", "a-b", "n_1", "pubmed", "PMID"], rng.randrange(2, 6))
+        recs, used = [], set()
+        while names:
+            p = names.pop()
+            ps = [names.pop()] if names and rng.random() < 0.4 else []
+            recs.append({"p": p, "u": f"https://{p.lower()}{len(recs)}.example.org/" + rng.choice(["", "id/", "x?id=", "obo/" + p + "_"]),
+                         "ps": ps, "us": [], "pat": None})
+        ci = calls.conv(recs, delim)
+        known = [x for r in recs for x in (r["p"], *r["ps"])]
+        for _ in range(8 if quick else 12):
+            p = rng.choice(known + ["nope", "Doi", "g"])
+            segs = []
+            for _ in range(rng.randrange(1, 4)):
+                seg = "".join(rng.choice(SAFE) for _ in range(rng.randrange(1, 6)))
+                if rng.random() < 0.35:
+                    seg = seg + ":" + rng.choice(SAFE) if delim == ":" else seg
+                if set(seg) <= {"."}:
+                    seg = "a" + seg
+                segs.append(seg)
+            ident = "/".join(segs)
+            resolve_call(calls, ci, p, ident)
+    batch, group = calls.batch(100)
+    fails, stv = tlc.validate_calls(batch, spec="TraceWeb.tla", cfg="TraceWeb.cfg", timeout=1200 if quick else 3000)
+    lines, violations, known_f, other = verdict("C17", "web", fails, calls, group, lambda c: {"C17"})
+    if model["violated"] and not violations:
+        raise MachineryError("TLC reports Inv_C17 violated on the model but the implementation conforms: the specification is wrong")
+    redirects = sum(1 for m in calls.meta if m["flask"][0] == 302)
+    cov = {"states": model["distinct"], "transitions": model["generated"], "traces_validated_against_impl": len(calls.calls),
+           "samples": [calls.meta[0], calls.meta[-1]], "evaluations": 2 * len(calls.calls), "distinct_nontrivial": redirects,
+           "rule": "evaluations = HTTP requests (each request goes to the Flask and to the FastAPI app in-process); distinct_nontrivial = requests answered 302 by Flask (known prefix); the rest exercise the 422 path",
+           "exhaustive": True, "models": [model], "calls_from_model": n_model, "call_validation": stv, "other_clauses_failed": other,
+           "known_findings": known_f}
+    return {"lines": lines, "violations": violations, "coverage": cov, "wall": time.time() - t0, "assumptions": ASSUME + [
+        "Flask.test_client and Starlette TestClient are faithful stand-ins for the deployed servers",
+        "identifiers: non-empty segments over [A-Za-z0-9._~-] plus the delimiter, no dot-segments, no percent escapes"]}
+
+
+def render_header(parts, ws):
+    """RFC 7231 Accept header from structured parts; ws selects the optional-whitespace variant."""
+    comma = [",", ", ", " , ", ",  "][ws % 4]
+    semi = [";q=", "; q=", " ;q=", " ; q="][(ws // 4) % 4]
+    out = []
+    for t, q in parts:
+        if q is None:
+            out.append(t)
+        else:
+            out.append(f"{t}{semi}{q / 1000:.3f}".rstrip("0").rstrip(".") if q % 1000 else f"{t}{semi}{q // 1000}")
+    return comma.join(out)
+
+
+def check_c18(tier, seed):
+    t0 = time.time()
+    quick = tier == "quick"
+    rng = random.Random(seed + 18)
+    consts = dict(WEB_CONST, MaxPath=1, MaxParts=3 if quick else 4, MaxURI=5 if quick else 6)
+    model, states, cex = run_model("mc/MC_Web.tla", "Spec", consts, ["Inv_C18neg", "Inv_C18map"], 900 if quick else 3000, want=("st",), dump=quick)
+    if not quick:
+        _, states, _ = run_model("mc/MC_Web.tla", "Spec", dict(consts, MaxParts=3, MaxURI=5), ["Inv_C18neg"], 900, want=("st",))
+    import impl  # noqa: F401
+    import warnings
+    warnings.filterwarnings("ignore")
+    from curies.mapping_service import MappingServiceGraph, MappingServiceSPARQLProcessor, get_flask_mapping_app
+    from curies.mapping_service.utils import handle_header
+    calls = WebCalls({"C18"})
+    # --- negotiation
+    hs = [s["st"]["h"] for s in states if s.get("st", {}).get("kind") == "neg"]
+    if cex:
+        hs += [s["st"]["h"] for s in cex if s.get("st", {}).get("kind") == "neg"]
+    rng.shuffle(hs)
+    base_recs = [{"p": "CHEBI", "u": "http://purl.obolibrary.org/obo/CHEBI_", "ps": ["chebi"],
+                  "us": ["https://www.ebi.ac.uk/chebi/searchId.do?chebiId=", "http://identifiers.org/chebi/", "http://sp ace.org/chebi/"], "pat": None},
+                 {"p": "GO", "u": "http://purl.obolibrary.org/obo/GO_", "ps": [], "us": [], "pat": None},
+                 {"p": "OBO", "u": "http://purl.obolibrary.org/obo/", "ps": [], "us": ["http://obo.alt/\"q\"/"], "pat": None}]
+    ci0 = calls.conv(base_recs, ":")
+    app0 = get_flask_mapping_app(calls.conv_objs[ci0 - 1]).test_client()
+    ping = "SELECT ?o WHERE { VALUES ?s { <http://purl.obolibrary.org/obo/GO_1> } ?s <http://www.w3.org/2002/07/owl#sameAs> ?o }"
+
+    def neg_call(parts, ws, served):
+        hdr = render_header(parts, ws)
+        enc = [[t, 1000 if q is None else q] for t, q in parts]
+        got = handle_header(hdr)
+        calls.add({"f": "negotiate", "parts": enc, "via": "handle_header", "got": got},
+                  {"f": "negotiate", "header": hdr, "got": got, "via": "handle_header"})
+        if served:
+            r = app0.get("/sparql", query_string={"query": ping}, headers={"accept": hdr})
+            ct = (r.headers.get("Content-Type") or "").split(";")[0].strip()
+            calls.add({"f": "negotiate", "parts": enc, "via": "flask", "got": ct},
+                      {"f": "negotiate", "header": hdr, "got": ct, "via": "flask", "status": r.status_code})
+    for k, h in enumerate(hs[: (1500 if quick else 20000)]):
+        parts = []
+        seen = set()
+        for t, q in h:
+            if MC_TYPES[t] in seen:       # repeated media types are outside the property (which q counts?)
+                continue
+            seen.add(MC_TYPES[t])
+            parts.append((MC_TYPES[t], None if q == 1000 and (k + len(parts)) % 2 else q))
+        if parts:
+            neg_call(parts, k % 16, served=(k % 10 == 0))
+    n_model = len(calls.calls)
+    alltypes = SUPPORTED + SYNONYMS + UNSUPPORTED
+    for k in range(300 if quick else 5000):
+        ts = rng.sample(alltypes, rng.randrange(1, 6))
+        parts = [(t, rng.choice([None, None, 1000, 900, 800, 500, 550, 300, 100, 1])) for t in ts]
+        neg_call(parts, rng.randrange(16), served=(k % 10 == 0))
+    neg_call([], 0, served=True)
+    # --- answers
+    pred_ok = "http://www.w3.org/2002/07/owl#sameAs"
+    pred_other = "http://www.w3.org/2004/02/skos/core#exactMatch"
+
+    def sparql(u, pred, direction, placement):
+        var_in, var_out = ("s", "o") if direction == "s" else ("o", "s")
+        trip = f"?s <{pred}> ?o"
+        vals = f"VALUES ?{var_in} {{ <{u}> }}"
+        if placement == "inside":
+            return f"SELECT ?{var_out} WHERE {{ {vals} {trip} }}", var_out
+        return f"SELECT ?{var_out} WHERE {{ {trip} }} {vals}", var_out
+
+    def map_calls(ci, u, thorough_forms):
+        c = calls.conv_objs[ci - 1]
+        graph = MappingServiceGraph(converter=c)
+        proc = MappingServiceSPARQLProcessor(graph=graph)
+        app = get_flask_mapping_app(c).test_client()
+        forms = [("s", "inside", "graph"), ("o", "after", "processor"), ("s", "after", "get"), ("o", "inside", "post")]
+        if thorough_forms:
+            forms = [(d, pl, how) for d in "so" for pl in ("inside", "after") for how in ("graph", "processor", "get", "post")]
+        for direction, placement, how in forms:
+            for pred in (pred_ok, pred_other):
+                if how == "graph" and placement == "after":
+                    continue        # without the custom processor rdflib does not bind VALUES first (documented limitation)
+                q, var = sparql(u, pred, direction, placement)
+                try:
+                    if how == "graph":
+                        got = [str(row[0]) for row in graph.query(q)]
+                    elif how == "processor":
+                        got = [str(row[0]) for row in graph.query(q, processor=proc)]
+                    else:
+                        if how == "get":
+                            r = app.get("/sparql", query_string={"query": q}, headers={"accept": "application/json"})
+                        else:
+                            r = app.post("/sparql", data={"query": q}, headers={"accept": "application/json"})
+                        doc = json.loads(r.get_data(as_text=True))
+                        got = [b[var]["value"] for b in doc["results"]["bindings"]]
+                except Exception as e:  # noqa: BLE001
+                    got = ["!error:" + type(e).__name__]
+                calls.add({"f": "map", "conv": ci, "u": calls.I(u), "configured": pred == pred_ok, "got": [calls.I(x) for x in got]},
+                          {"f": "map", "u": u, "pred": pred, "direction": direction, "placement": placement, "how": how, "got": got,
+                           "records": [[r.prefix, r.uri_prefix, r.uri_prefix_synonyms] for r in c.records]})
+    us = ["http://purl.obolibrary.org/obo/CHEBI_1", "https://www.ebi.ac.uk/chebi/searchId.do?chebiId=1", "http://identifiers.org/chebi/24867",
+          "http://purl.obolibrary.org/obo/GO_0032571", "http://purl.obolibrary.org/obo/go.owl", "http://example.org/nope/1",
+          "http://purl.obolibrary.org/obo/CHEBI_", "http://purl.obolibrary.org/obo/CHEBI", "http://purl.obolibrary.org/obo/x_y"]
+    for u in us:
+        map_calls(ci0, u, not quick)
+    for _ in range(6 if quick else 60):
+        names = rng.sample(["a", "b", "c", "dd", "e1"], rng.randrange(1, 4))
+        recs = []
+        for nme in names:
+            us_ = [f"http://{nme}.alt{k}.org/{rng.choice(['', 'x#', 'q?id='])}" for k in range(rng.randrange(0, 3))]
+            if rng.random() < 0.3:
+                us_.append(f"http://{nme}.bad org/")
+            recs.append({"p": nme, "u": f"http://{nme}.org/" + rng.choice(["", "ns/", nme.upper() + "_"]), "ps": [], "us": us_, "pat": None})
+        ci = calls.conv(recs, ":")
+        for r in recs:
+            for up in [r["u"]] + [x for x in r["us"] if " " not in x][:1]:
+                map_calls(ci, up + rng.choice(["1", "a/b", "x_y", ""]), False)
+        map_calls(ci, "http://unknown.org/1", False)
+    fastapi_ok = True
+    try:
+        from curies.mapping_service import get_fastapi_mapping_app
+        get_fastapi_mapping_app(calls.conv_objs[ci0 - 1])
+    except Exception:  # noqa: BLE001
+        fastapi_ok = False
+    batch, group = calls.batch(100)
+    fails, stv = tlc.validate_calls(batch, spec="TraceWeb.tla", cfg="TraceWeb.cfg", timeout=1200 if quick else 3000)
+    lines, violations, known_f, other = verdict("C18", "web", fails, calls, group, lambda c: {"C18"})
+    if model["violated"] and not violations:
+        raise MachineryError("TLC reports a C18 invariant violated on the model but the implementation conforms: the specification is wrong")
+    nontriv = len({json.dumps(m, sort_keys=True) for m in calls.meta if (m["f"] == "map" and m["got"]) or (m["f"] == "negotiate" and m["got"] != SUPPORTED[1])})
+    cov = {"states": model["distinct"], "transitions": model["generated"], "traces_validated_against_impl": len(calls.calls),
+           "samples": [calls.meta[0], calls.meta[-1]], "evaluations": len(calls.calls), "distinct_nontrivial": nontriv,
+           "rule": "evaluations = handle_header calls, served responses and SPARQL queries (graph.query with and without the custom processor, Flask GET/POST); distinct_nontrivial = distinct calls with a non-default content type or a non-empty binding set",
+           "exhaustive": True, "models": [model], "calls_from_model": n_model, "call_validation": stv, "other_clauses_failed": other,
+           "known_findings": known_f, "fastapi_mapping_app_constructible": fastapi_ok}
+    return {"lines": lines, "violations": violations, "coverage": cov, "wall": time.time() - t0, "assumptions": ASSUME + [
+        "rdflib's SPARQL engine, result serialisers and _is_valid_uri; Flask.test_client",
+        "the FastAPI mapping app cannot be constructed in this sandbox (python-multipart is not installed): only Flask, graph.query and handle_header carry C18" if not fastapi_ok else "FastAPI mapping app constructible",
+        "Accept headers without repeated media types and without q=0"]}
+
+
+CHECKS = {"C20": check_c20, "C19": check_c19, "C17": check_c17, "C18": check_c18}
 
 
 def check(pid, tier, seed):
